@@ -180,6 +180,17 @@ func runSplitFiles(t *simrt.Tape, keep bool) simrt.Outcome {
 		}
 		f := encFormats[t.Choose(3)]
 		path := filepath.Join(dir, fmt.Sprintf("split-%d.bin", p))
+		if t.Prob(1, 5) {
+			// a file name with characters that are wildcards to a shell but ordinary to the file system
+			// ("results[1].bin", "run?.bin"), next to a file that the name would match as a pattern: the name is a name
+			path = filepath.Join(dir, fmt.Sprintf("split[%d].bin", p))
+			decoy := filepath.Join(dir, fmt.Sprintf("split%d.bin", p))
+			if err := writeResults(decoy, f, rs[:1]); err != nil {
+				fmt.Println("INFRA:", err)
+				os.Exit(2)
+			}
+			r.stats["probe.input-name-with-pattern-characters"]++
+		}
 		if err := writeResults(path, f, mine); err != nil {
 			fmt.Println("INFRA:", err)
 			os.Exit(2)
